@@ -431,4 +431,313 @@ theorem readRequest_wire (m : Msg) (h : WFReq m) (rest : Bytes) :
     · split <;> simp_all
     · intro c hc; split at hc <;> simp_all
 
+/-! ### pipelining -/
+
+theorem wire_length_pos (m : Msg) : 2 ≤ (wire m).length := by
+  simp [wire, headSection_eq, crlf]; omega
+
+theorem flatMap_wire_length (ms : List Msg) : ms.length ≤ (ms.flatMap wire).length := by
+  induction ms with
+  | nil => simp
+  | cons m r ih =>
+    have := wire_length_pos m
+    simp only [List.flatMap_cons, List.length_append, List.length_cons]; omega
+
+/-- Any number of well-formed requests written back to back are recovered one by one, in order,
+each exactly, with nothing left over. -/
+theorem readRequests_pipelined (ms : List Msg) (h : ∀ m ∈ ms, WFReq m) (fuel : Nat) (hf : ms.length < fuel) :
+    readRequests fuel (ms.flatMap wire) = ⟨ms.map reqParsed, none⟩ := by
+  induction ms generalizing fuel with
+  | nil =>
+    obtain ⟨f, rfl⟩ : ∃ f, fuel = f + 1 := ⟨fuel - 1, by simp at hf; omega⟩
+    simp [readRequests]
+  | cons m r ih =>
+    obtain ⟨f, rfl⟩ : ∃ f, fuel = f + 1 := ⟨fuel - 1, by simp at hf; omega⟩
+    have hw := wire_length_pos m
+    have hne : (wire m ++ r.flatMap wire).isEmpty = false := by
+      cases hq : wire m with
+      | nil => simp [hq] at hw
+      | cons c t => rfl
+    simp only [List.flatMap_cons, List.map_cons]
+    unfold readRequests
+    simp only [hne, Bool.false_eq_true, if_false, readRequest_wire m (h m (by simp)) (r.flatMap wire)]
+    have : ¬ (r.flatMap wire).length ≥ (wire m ++ r.flatMap wire).length := by simp; omega
+    simp only [this, if_false]
+    rw [ih (fun m hm => h m (by simp [hm])) f (by simp at hf; omega)]
+
+theorem readAllRequests_pipelined (ms : List Msg) (h : ∀ m ∈ ms, WFReq m) :
+    readAllRequests (ms.flatMap wire) = ⟨ms.map reqParsed, none⟩ :=
+  readRequests_pipelined ms h _ (by have := flatMap_wire_length ms; omega)
+
+/-! ### responses -/
+
+def resSkeleton (major minor code : Nat) (status : Bytes) : Msg :=
+  { isReq := false, method := [], url := [], major, minor, code, status, host := [], te := [], cl := 0,
+    hdr := [], body := none, trailer := none }
+
+/-- `m.status` is three digits (the code) and, optionally, a space and a reason phrase. -/
+def statusOK (m : Msg) : Bool :=
+  let codeB := codeOf m.status
+  codeB.length == 3 && codeB.all isDigit && digitsVal codeB 0 == m.code && m.status.all (· != 10)
+
+theorem protoBytes_no_sp (a b : Nat) (ha : a < 10) (hb : b < 10) : ∀ c ∈ protoBytes a b, c ≠ 32 := by
+  rw [protoBytes_eq a b ha hb]
+  have h1 := (isDigit_props _ (isDigit_dg a ha).1).2.1
+  have h2 := (isDigit_props _ (isDigit_dg b hb).1).2.1
+  intro c hc
+  simp only [List.mem_cons, List.not_mem_nil, or_false] at hc
+  rcases hc with rfl | rfl | rfl | rfl | rfl | rfl | rfl | rfl <;> first | decide | (intro h; simp [h, isOWS] at h1 h2)
+
+/-- The `Connection` field is dropped from a response that announces `close` (HTTP/1.1 up). -/
+def dropConn (major minor : Nat) (hs : List KV) : Bool :=
+  decide (major ≥ 1) && !(major == 1 && minor == 0) && shouldClose major minor hs
+
+def connDropped (major minor : Nat) (hs : List KV) : List KV :=
+  if dropConn major minor hs then del hs connKey else hs
+
+/-- Any status line `HTTP/a.b ddd[ reason]` followed by any list of valid fields and the blank line:
+the reader recovers version, status and exactly that field list, then frames the body by
+`readTransfer`. -/
+theorem readResponse_serialized (meth : Bytes) (m : Msg) (hs : List KV) (X : Bytes)
+    (hmaj : m.major < 10) (hmin : m.minor < 10) (hst : statusOK m = true)
+    (hv : ∀ kv ∈ hs, ValidKV kv = true) :
+    readResponse meth (protoBytes m.major m.minor ++ [32] ++ m.status ++ crlf ++ fields hs ++ crlf ++ X) =
+      liftE (readTransfer true meth m.code m.major m.minor (shouldClose m.major m.minor (fixPragma hs))
+              (connDropped m.major m.minor (fixPragma hs))) fun t =>
+        finishBody (resSkeleton m.major m.minor m.code m.status) t X := by
+  simp only [statusOK, Bool.and_eq_true, beq_iff_eq] at hst
+  obtain ⟨⟨⟨hc3, hcd⟩, hcv⟩, hnolf'⟩ := hst
+  have hsnolf : ∀ c ∈ m.status, c ≠ 10 := by
+    intro c hc; have := List.all_eq_true.mp hnolf' c hc; simpa using this
+  have hnolf : ∀ c ∈ protoBytes m.major m.minor ++ [32] ++ m.status, c ≠ 10 := by
+    intro c hc
+    simp only [List.mem_append, List.mem_singleton] at hc
+    rcases hc with (hc | hc) | hc
+    · exact protoBytes_no_lf _ _ hmaj hmin c hc
+    · subst hc; decide
+    · exact hsnolf c hc
+  have hform : protoBytes m.major m.minor ++ [32] ++ m.status ++ crlf ++ fields hs ++ crlf ++ X
+      = (protoBytes m.major m.minor ++ [32] ++ m.status) ++ crlf ++ (fields hs ++ crlf ++ X) := by simp
+  -- the status starts with a digit
+  have hhead : ∃ d r, m.status = d :: r ∧ isDigit d = true := by
+    unfold codeOf at hc3 hcd
+    cases hq : cut 32 m.status with
+    | none =>
+      simp only [hq] at hc3 hcd
+      cases hs' : m.status with
+      | nil => simp [hs'] at hc3
+      | cons d r => exact ⟨d, r, rfl, by rw [hs'] at hcd; simp at hcd; exact hcd.1⟩
+    | some p =>
+      obtain ⟨c, r⟩ := p
+      simp only [hq] at hc3 hcd
+      have := (cut_eq_some 32 _ _ _ hq).1
+      cases c with
+      | nil => simp at hc3
+      | cons d c' => exact ⟨d, c' ++ 32 :: r, by rw [this]; simp, by simp at hcd; exact hcd.1⟩
+  obtain ⟨d, r, hdr, hd⟩ := hhead
+  have hd32 : (d == 32) = false := by
+    have := (isDigit_props d hd).2.1; simp [isOWS] at this; simp [this.1]
+  have hdw : (m.status.dropWhile (· == 32)) = m.status := by rw [hdr]; simp [List.dropWhile, hd32]
+  rw [hform]
+  unfold readResponse
+  rw [readLine_crlf _ _ hnolf]
+  have hcut : cut 32 (protoBytes m.major m.minor ++ [32] ++ m.status) = some (protoBytes m.major m.minor, m.status) := by
+    have : protoBytes m.major m.minor ++ [32] ++ m.status = protoBytes m.major m.minor ++ 32 :: m.status := by simp
+    rw [this]; exact cut_append 32 _ _ (protoBytes_no_sp _ _ hmaj hmin)
+  simp only [hcut, hdw]
+  have hc3' : ((codeOf m.status).length != 3) = false := by
+    simp [hc3]
+  simp only [hc3', Bool.false_eq_true, if_false, hcd, Bool.not_true, parseHTTPVersion_proto _ _ hmaj hmin,
+    readHeader_fields hs hv, hcv]
+  simp only [connDropped, dropConn, resSkeleton]
+  congr 1
+
+/-- Framing of a response that carries a body (not an answer to HEAD, not 1xx / 204 / 304):
+`chunked` (HTTP/1.1 up), or a `Content-Length` equal to the body length, or neither (`cl = -1`,
+close-delimited). -/
+def framingResOK (m : Msg) : Bool :=
+  if isChunked m.te then
+    m.te == [chunkedTok] && m.cl == -1 && atLeast11 m && decide ((m.body.getD []).length < 2 ^ 62)
+  else
+    m.te.isEmpty && m.trailer.isNone &&
+      (m.cl == -1 || (decide (0 ≤ m.cl) && decide (m.cl < 2 ^ 63) && decide (((m.body.getD []).length : Int) = m.cl)))
+
+/-- A response with a body, as an origin sends it or the proxy relays it. Decidable. -/
+def WFRes (meth : Bytes) (m : Msg) : Prop :=
+  m.isReq = false ∧ m.method = [] ∧ m.url = [] ∧ m.host = [] ∧
+  (meth == headTok) = false ∧ (m.code / 100 == 1 || m.code == 204 || m.code == 304) = false ∧
+  m.major < 10 ∧ m.minor < 10 ∧ statusOK m = true ∧
+  m.hdr.all ValidKV = true ∧ has (e2e m) trailerKey = false ∧ has (e2e m) pragmaKey = false ∧
+  framingResOK m = true ∧ m.body.isSome = true ∧ trailerOK m = true
+
+instance (meth : Bytes) (m : Msg) : Decidable (WFRes meth m) := by unfold WFRes; infer_instance
+
+/-- The response is delimited by its length (`Content-Length` or chunked), not by the close. -/
+def lengthDelimited (m : Msg) : Bool := isChunked m.te || decide (0 ≤ m.cl)
+
+def resHdr (m : Msg) : List KV :=
+  sortKV (if dropConn m.major m.minor (headOf m) then del (clF m ++ e2e m) connKey else clF m ++ e2e m)
+
+def resParsed (m : Msg) : Parsed :=
+  ⟨{ m with hdr := resHdr m }, shouldClose m.major m.minor (headOf m) || !lengthDelimited m, none⟩
+
+theorem has_iff_vals (l : List KV) (k : Bytes) : has l k = false ↔ vals l k = [] :=
+  ⟨vals_eq_nil_of_has l k, has_of_vals_nil l k⟩
+
+theorem vals_connDropped (maj min : Nat) (l : List KV) (k : Bytes) (hk : (connKey == k) = false) :
+    vals (connDropped maj min l) k = vals l k := by
+  unfold connDropped; split
+  · exact vals_del_ne l k connKey hk
+  · rfl
+
+theorem has_connDropped (maj min : Nat) (l : List KV) (k : Bytes) (hk : (connKey == k) = false)
+    (h : has l k = false) : has (connDropped maj min l) k = false := by
+  rw [has_iff_vals] at h ⊢; rw [vals_connDropped maj min l k hk]; exact h
+
+theorem conn_ne : (connKey == teKey) = false ∧ (connKey == clKey) = false ∧ (connKey == trailerKey) = false ∧
+    (connKey == pragmaKey) = false := by decide
+
+/-- A response with a body, in any of the three framings. For the length-delimited ones the bytes
+that follow are left untouched; a close-delimited response takes everything up to the end. -/
+theorem readResponse_wire_framed (meth : Bytes) (m : Msg) (h : WFRes meth m)
+    (cs : List Bytes) (hcs : cs.flatten = m.body.getD []) (hne : ∀ c ∈ cs, c ≠ []) (rest : Bytes)
+    (hrest : lengthDelimited m = false → rest = []) :
+    readResponse meth ((if isChunked m.te then wireChunkedAs m cs else wire m) ++ rest) =
+      .complete (resParsed m) rest := by
+  obtain ⟨hreq, hmeth, hurl, hhost, hhd, hnb, hmaj, hmin, hst, hhdr, htr, hpr, hfr, hbody, htrl⟩ := h
+  obtain ⟨b, hb⟩ := Option.isSome_iff_exists.mp hbody
+  have hexcl : ∀ k, (exclOf m).contains k = true → has (e2e m) k = false := has_e2e_excl m
+  have hex : exclOf m = [clKey, teKey] := by simp [exclOf, hreq]
+  have he_cl := hexcl clKey (by rw [hex]; decide)
+  have he_te := hexcl teKey (by rw [hex]; decide)
+  have hhostF : hostF m = [] := by simp [hostF, hreq]
+  have kn := keys_ne
+  have cn := conn_ne
+  have hstart : startLine m = protoBytes m.major m.minor ++ [32] ++ m.status := by simp [startLine, hreq]
+  cases hch : isChunked m.te with
+  | true =>
+    simp only [framingResOK, hch, if_true, Bool.and_eq_true, decide_eq_true_eq, hb, Option.getD_some,
+      beq_iff_eq] at hfr
+    obtain ⟨⟨⟨hte, hcl⟩, h11⟩, hb62⟩ := hfr
+    have hteF : teF m = [(teKey, chunkedTok)] := by simp [teF, hte, join_singleton]
+    have hclF : clF m = [] := by simp [clF, hch]
+    have hhead : headOf m = (teKey, chunkedTok) :: e2e m := by simp [headOf, hteF, hclF, hhostF]
+    have hvalid : ∀ kv ∈ headOf m, ValidKV kv = true := by
+      intro kv hkv; rw [hhead] at hkv
+      rcases List.mem_cons.mp hkv with rfl | hkv
+      · exact validKV_host_te_cl.1
+      · exact valid_e2e m hhdr kv hkv
+    have hpragma : has (headOf m) pragmaKey = false := by
+      rw [hhead, has_cons, hpr]; simp [kn.2.2.2.2.2.2.2.2.1]
+    have htev : vals (headOf m) teKey = [chunkedTok] := by
+      rw [hhead, vals_cons, vals_eq_nil_of_has _ _ he_te]; simp
+    have hdelte : del (headOf m) teKey = e2e m := by
+      rw [hhead, del_cons, del_eq_self_of_has _ _ he_te]; simp
+    have h11' : ((m.major == 0 && m.minor == 0) || decide (m.major > 1) || (m.major == 1 && decide (m.minor ≥ 1))) = true := by
+      simp only [atLeast11] at h11; simp only [Bool.or_eq_true] at h11 ⊢; rcases h11 with h | h
+      · exact Or.inl (Or.inr h)
+      · exact Or.inr h
+    have hne' : ∀ c ∈ cs, c ≠ [] ∧ c.length < 2 ^ 62 := by
+      intro c hc
+      refine ⟨hne c hc, ?_⟩
+      have : c.length ≤ cs.flatten.length := length_le_flatten cs c hc
+      rw [hcs, hb] at this; simp at this; omega
+    obtain ⟨trv, htrv, hrt⟩ : ∃ trv, trv = m.trailer ∧
+        readTrailer none (fields (sortKV (m.trailer.getD [])) ++ crlf ++ rest) = .complete trv rest := by
+      cases ht : m.trailer with
+      | none => exact ⟨none, rfl, by simpa [fields, sortKV] using readTrailer_none none rest⟩
+      | some t =>
+        simp only [trailerOK, ht, Bool.and_eq_true, Bool.not_eq_true', decide_eq_true_eq, beq_iff_eq] at htrl
+        obtain ⟨⟨⟨⟨_, hte0⟩, htv⟩, hts⟩, htl⟩ := htrl
+        have htne : t ≠ [] := by intro e; simp [e] at hte0
+        refine ⟨some t, rfl, ?_⟩
+        simp only [Option.getD_some, hts]
+        have := readTrailer_fields none t htne (fun kv hkv => List.all_eq_true.mp htv kv hkv) htl rest
+        rw [hts] at this; exact this
+    have hwire : wireChunkedAs m cs ++ rest = protoBytes m.major m.minor ++ [32] ++ m.status ++ crlf
+        ++ fields (headOf m) ++ crlf ++ (chunkStream cs ++ (fields (sortKV (m.trailer.getD [])) ++ crlf) ++ rest) := by
+      simp [wireChunkedAs, headSection_eq, hstart]
+    simp only [if_true]
+    rw [hwire, readResponse_serialized meth m (headOf m) _ hmaj hmin hst hvalid, fixPragma_id _ hpragma]
+    rw [readTransfer_chunked true meth m.code m.major m.minor _ _ chunkedTok
+      (by rw [vals_connDropped _ _ _ _ cn.1]; exact htev) (by decide) h11'
+      (by unfold connDropped; split
+          · rw [del_comm, hdelte]; exact has_del_of_has _ _ _ he_cl
+          · rw [hdelte]; exact he_cl)
+      (by unfold connDropped; split
+          · rw [del_comm, hdelte]; exact has_del_of_has _ _ _ htr
+          · rw [hdelte]; exact htr)
+      (by simp [hhd]) hnb]
+    simp only [liftE, finishBody]
+    rw [readBody_chunked cs hne' _ trv rest hrt]
+    have hhdrEq : del (connDropped m.major m.minor (headOf m)) teKey
+        = (if dropConn m.major m.minor (headOf m) then del (clF m ++ e2e m) connKey else clF m ++ e2e m) := by
+      unfold connDropped; split
+      · rw [del_comm, hdelte, hclF]; rfl
+      · rw [hdelte, hclF]; rfl
+    simp only [resParsed, resHdr, lengthDelimited, hch, hhdrEq, resSkeleton, hcs, hb, Option.getD_some, htrv]
+    congr 1
+    · cases m; simp_all
+  | false =>
+    simp only [framingResOK, hch, Bool.false_eq_true, if_false, Bool.and_eq_true, decide_eq_true_eq, hb,
+      Option.getD_some, Bool.or_eq_true, beq_iff_eq] at hfr
+    obtain ⟨⟨hte, htrn⟩, hclc⟩ := hfr
+    have hteF : teF m = [] := by simp [teF, hte]
+    have hwire : wire m ++ rest = protoBytes m.major m.minor ++ [32] ++ m.status ++ crlf
+        ++ fields (headOf m) ++ crlf ++ (b ++ rest) := by
+      simp [wire, hch, headSection_eq, hstart, hb]
+    simp only [Bool.false_eq_true, if_false]
+    rcases hclc with hcl | ⟨⟨hcl0, hcl63⟩, hlen⟩
+    · -- close-delimited
+      have hclF : clF m = [] := by simp [clF, hch, hcl]
+      have hhead : headOf m = e2e m := by simp [headOf, hteF, hclF, hhostF]
+      have hvalid : ∀ kv ∈ headOf m, ValidKV kv = true := by rw [hhead]; exact valid_e2e m hhdr
+      have hrest' : rest = [] := hrest (by simp [lengthDelimited, hch, hcl])
+      subst hrest'
+      rw [hwire, readResponse_serialized meth m (headOf m) _ hmaj hmin hst hvalid,
+        fixPragma_id _ (by rw [hhead]; exact hpr)]
+      rw [readTransfer_res_eof meth m.code m.major m.minor _ _
+        (has_connDropped _ _ _ _ cn.1 (by rw [hhead]; exact he_te))
+        (has_connDropped _ _ _ _ cn.2.1 (by rw [hhead]; exact he_cl)) hhd hnb]
+      simp only [liftE, finishBody, List.append_nil, readBody_eof]
+      simp only [resParsed, resHdr, lengthDelimited, hch, hcl, resSkeleton, hclF, connDropped, hhead]
+      congr 1
+      · cases m; simp_all
+    · -- Content-Length
+      obtain ⟨n, hn⟩ : ∃ n : Nat, m.cl = n := ⟨m.cl.toNat, by omega⟩
+      have hclF : clF m = [(clKey, natDigits n)] := by simp [clF, hch, hcl0, hn, itoa_ofNat]
+      have hbn : b.length = n := by omega
+      have hn63 : n < 2 ^ 63 := by omega
+      have hhead : headOf m = (clKey, natDigits n) :: e2e m := by simp [headOf, hteF, hclF, hhostF]
+      have hvalid : ∀ kv ∈ headOf m, ValidKV kv = true := by
+        intro kv hkv; rw [hhead] at hkv
+        rcases List.mem_cons.mp hkv with rfl | hkv
+        · simp [ValidKV, validKV_host_te_cl.2.2, valueOK_natDigits]
+        · exact valid_e2e m hhdr kv hkv
+      have hpragma : has (headOf m) pragmaKey = false := by
+        rw [hhead, has_cons, hpr]; simp [kn.2.2.2.2.2.2.2.2.2.2.2.2.2.1]
+      have hte' : has (headOf m) teKey = false := by
+        rw [hhead, has_cons, he_te]; simp [kn.2.2.2.2.2.2.2.2.2.2.2.1]
+      have hclv : vals (headOf m) clKey = [natDigits n] := by
+        rw [hhead, vals_cons, vals_eq_nil_of_has _ _ he_cl]; simp
+      have hnd : (trimLWS (natDigits n)).isEmpty = false := by
+        rw [trimLWS_digits _ (natDigits_spec n).1]
+        cases hq : natDigits n with
+        | nil => exact absurd hq (natDigits_ne_nil n)
+        | cons c r => rfl
+      rw [hwire, readResponse_serialized meth m (headOf m) _ hmaj hmin hst hvalid, fixPragma_id _ hpragma]
+      rw [readTransfer_res_cl meth m.code m.major m.minor _ _ (natDigits n) n
+        (has_connDropped _ _ _ _ cn.1 hte')
+        (by rw [vals_connDropped _ _ _ _ cn.2.1]; exact hclv) hnd (parseCL_natDigits n hn63) hhd hnb]
+      simp only [liftE, finishBody]
+      have hrb : readBody (if n = 0 then BodyKind.none else BodyKind.len n) none (b ++ rest) = .complete (b, none) rest := by
+        by_cases h0 : n = 0
+        · have : b = [] := List.eq_nil_of_length_eq_zero (by omega)
+          subst this; simp [h0, readBody]
+        · simp only [h0, if_false]; rw [← hbn]; exact readBody_len b rest
+      rw [hrb]
+      simp only [resParsed, resHdr, lengthDelimited, hch, hcl0, resSkeleton, hclF, connDropped, hhead]
+      congr 1
+      · cases m; simp_all
+
 end Martian.Http1
